@@ -109,6 +109,40 @@ static void run_cmd(char **a, int n) {
         g_callsep = 0; free(tmp);
         printf("post="); print_snap(to);
     }
+    else if (!strcmp(a[0], "forge") && n >= 4) {
+        /* forge <side> <rectype> <hstype|0> <hex body> : the given side seals a record of arbitrary type/content with its CURRENT
+           write state (a misbehaving authenticated peer); the record is appended to the wire queue like any other */
+        peer_t *p = side(a[1]); int rt = atoi(a[2]), ht = atoi(a[3]); unsigned char *body; size_t bl = unhex(n >= 5 ? a[4] : "-", &body);
+        unsigned char rec[20000]; int32 rl = -1; ssl_t *ssl = p->ssl;
+        queue_t *q = p->is_server ? &g_s2c : &g_c2s;
+        if (!ssl) { printf("forge:nil"); }
+        else if (ACTV_VER(ssl, v_tls_1_3_any) && (ssl->flags & SSL_FLAGS_WRITE_SECURE)) {
+            unsigned char pt[17000]; size_t ptl = 0;
+            if (rt == SSL_RECORD_TYPE_HANDSHAKE && ht) { pt[0] = (unsigned char) ht; pt[1] = (unsigned char) (bl >> 16); pt[2] = (unsigned char) (bl >> 8); pt[3] = (unsigned char) bl; ptl = 4; }
+            memcpy(pt + ptl, body, bl); ptl += bl; pt[ptl++] = (unsigned char) rt;
+            ssl->outRecType = SSL_RECORD_TYPE_APPLICATION_DATA; ssl->outRecLen = (psSize_t) (ptl + 16);
+            rec[0] = 23; rec[1] = 3; rec[2] = 3; rec[3] = (unsigned char) ((ptl + 16) >> 8); rec[4] = (unsigned char) (ptl + 16);
+            if (ssl->encrypt(ssl, pt, rec + 5, (uint32) ptl) >= 0) { rl = (int32) (5 + ptl + 16); ilog_pop(p->is_server); q_meta_push(q, 23, rt, 1); }
+        } else if (!ACTV_VER(ssl, v_tls_1_3_any)) {
+            sslBuf_t out; unsigned char *c, *end, *es; uint8_t padLen; psSize_t ms;
+            out.buf = out.start = out.end = rec; out.size = sizeof rec; c = out.end; end = rec + sizeof rec;
+            ms = (psSize_t) (ssl->recordHeadLen + bl + ((rt == SSL_RECORD_TYPE_HANDSHAKE) ? ssl->hshakeHeadLen : 0));
+            if (writeRecordHeader(ssl, (uint8_t) rt, (uint8_t) ht, &ms, &padLen, &es, end, &c) >= 0) {
+                memcpy(c, body, bl); c += bl;
+                if (encryptRecord(ssl, rt, ht, ms, padLen, es, &out, &c) >= 0) {
+                    rl = (int32) (c - rec); q_meta_push(q, rt, rt, (ssl->flags & SSL_FLAGS_WRITE_SECURE) ? 1 : 0);
+                }
+            }
+        } else {   /* TLS 1.3 before write keys: plaintext record */
+            rec[0] = (unsigned char) rt; rec[1] = 3; rec[2] = 3; size_t off = 5;
+            if (rt == SSL_RECORD_TYPE_HANDSHAKE && ht) { rec[5] = (unsigned char) ht; rec[6] = (unsigned char) (bl >> 16); rec[7] = (unsigned char) (bl >> 8); rec[8] = (unsigned char) bl; off = 9; }
+            memcpy(rec + off, body, bl); off += bl; rec[3] = (unsigned char) ((off - 5) >> 8); rec[4] = (unsigned char) (off - 5);
+            rl = (int32) off; q_meta_push(q, rt, rt, 0);
+        }
+        if (rl > 0) { q_push(q, rec, (size_t) rl); printf("forge:%d", rl); } else if (ssl) printf("forge:fail");
+        free(body);
+    }
+    else if (!strcmp(a[0], "seths") && n >= 3) { peer_t *p = side(a[1]); if (p->ssl) p->ssl->hsState = (uint8_t) atoi(a[2]); printf("seths:%d", atoi(a[2])); }
     else if (!strcmp(a[0], "tick") && n >= 2) { g_vtime += atol(a[1]); printf("tick:%ld", g_vtime); }
     else if (!strcmp(a[0], "sendchunk") && n >= 2) { g_sendchunk = atoi(a[1]); printf("sendchunk:%d", g_sendchunk); }
     else if (!strcmp(a[0], "wire")) printf("wire:c2s=%zu:%016llx,s2c=%zu:%016llx", g_wire_len[0], (unsigned long long) g_wire_hash[0], g_wire_len[1], (unsigned long long) g_wire_hash[1]);
